@@ -106,6 +106,15 @@ TEMPLATES = {
                    '--laplace-load-a=%s,1' % N(v['a0']), '--laplace-load-b=%s,2' % N(v['b0']),
                    '--attach-load=4,1', '--attach-load=2,3', '--attach-load=1,4', '--attach-load=3,all,2'], False,
         lambda c, v: []),
+    'repeated-attachment': (
+        # the same load attached more than once to a pulse (it is then in series that many times): whole object + one of its pulses,
+        # whole antenna + one pulse, the same whole-object attachment twice
+        dict(f=('r', 1, 100), Z=('c',), R=('r', 1e-3, 1e6), L=('r', 1e-9, 1e-3)),
+        lambda v: ['-f', N(v['f']), '-w', W1, '-w', W2, '--excitation-pulse=2', '--load=' + C(v['Z']),
+                   '--rlc-load=%s,%s,' % (N(v['R']), N(v['L'])), '--load=' + C(v['Z']),
+                   '--attach-load=1,all,2', '--attach-load=1,1,2', '--attach-load=3,all', '--attach-load=3,3',
+                   '--attach-load=2,all,1', '--attach-load=2,all,1'], False,
+        lambda c, v: []),
     'media': (
         dict(f=('r', 1, 100), e1=('r', 1, 80), g1=('r', 1e-4, 10), e2=('r', 1, 80), g2=('r', 1e-4, 10), h2=('r', -10, 10),
              u1=('r', 1, 1000), rr=('r', 1e-4, 0.01)),
@@ -336,7 +345,7 @@ def main(args):
     ck = Check('C15', args)
     ck.shadow_stats = symx.load().stats
     names = list(TEMPLATES) if ck.tier == 'thorough' else ['source-1V-neighbour', 'tags+taper+bygeo', 'skin-per-tag', 'rlc+trap+laplace',
-                                                         'media', 'media3', 'transforms', 'mixed-loads-out-of-order']
+                                                         'media', 'media3', 'transforms', 'mixed-loads-out-of-order', 'repeated-attachment']
     run_parallel(ck, 'checks.c15', [('roundtrip', (n,)) for n in names])
     ck.assumptions += ['argument lists are built from the listed templates; every numeric field of a template is an arbitrary value in '
                        'its stated range; geometry coordinates are concrete',
